@@ -148,6 +148,21 @@ pub fn stress_sources() -> Vec<(String, String)> {
         "nested-object-literals".into(),
         "let outer = object begin\n  let tag = 1;\n  function make(a) -> object begin let v = a; function inner(b) -> object begin let w = b; function deepest() -> this.w * 100; end; function get(i) -> this.v + i; end;\n  function after() -> this.tag + 1;\nend;\nlet made = outer.make(5);\nprint(\"~ ~ ~ ~\\n\", made[2], made.inner(3).deepest(), outer.after(), made);\nfunction build(n) -> object begin function one() -> object begin function two() -> n2(); end; end;\nfunction n2() -> 22;\nprint(\"~\\n\", build(1).one().two());\n".into(),
     ));
+    // each call gets fresh locals; an inner call never disturbs the caller's
+    v.push((
+        "fresh-locals-per-call".into(),
+        "function r(n) -> begin let loc = n * 10; let other = 0; if n > 0 then other <- r(n - 1); print(\"~:~:~ \", n, loc, other); loc end;\nprint(\"~\\n\", r(4));\nlet o = object begin function m(n) -> begin let a = array(1, n); if n > 0 then this.m(n - 1); a[0] end; end;\nprint(\"~\\n\", o.m(3));\nfunction two(a, b) -> begin let t = a; begin let t = b; t <- t + 1 end; t end;\nprint(\"~ ~\\n\", two(1, 2), two(3, 4));\n".into(),
+    ));
+    // ur-constructors: every call of the same literal makes a distinct instance
+    v.push((
+        "constructor-instances".into(),
+        "function mk(v) -> object begin let val = v; let items = array(2, v); function get2() -> this.val * 2; function setv(x) -> this.val <- x; function +(o) -> mk(this.val + o.val); end;\nlet i1 = mk(1);\nlet i2 = mk(2);\ni1.setv(10);\ni1.items[0] <- 99;\nprint(\"~ ~ ~ ~ ~ ~\\n\", i1.val, i2.val, i1.get2(), i2.get2(), i1.items, i2.items);\nlet i3 = i1 + i2;\ni3.setv(0);\nprint(\"~ ~ ~\\n\", i1, i2, i3);\nfunction row(n) -> array(n, n);\nlet r1 = row(2);\nlet r2 = row(2);\nr1[0] <- 7;\nprint(\"~ ~\\n\", r1, r2);\nlet k = 0;\nlet made = array(3, mk(k <- k + 1));\nmade[0].setv(50);\nprint(\"~\\n\", made);\n".into(),
+    ));
+    // strings that look like other constants, names shared between kinds of constants
+    v.push((
+        "constant-lookalikes".into(),
+        "let x = 1; let y = true; let z = null; let one = 1;\nprint(\"1\"); print(\"true\"); print(\"null\"); print(\"x\"); print(\"one\"); print(\"~\"  , x); print(\"\\n\");\nlet o = object begin let x = 2; let one = 3; function x() -> 4; function one(one) -> one; end;\nfunction x() -> 5;\nprint(\"~ ~ ~ ~ ~ ~ ~ ~\\n\", x, one, o.x, o.one, o.x(), o.one(6), x(), y);\nprint(\"~ ~ ~\\n\", 1 == true, null == false, 0 == null);\nprint(\"if:consequent:0 loop:body:1 λ: ::size_0 ~\\n\", if x == 1 then 7 else 0);\n".into(),
+    ));
     // several zero-length arrays and empty objects
     v.push(("empty-allocations".into(), "let k = 0; while k < 3 do begin array(0, k); array(0, begin k end); object begin end; k <- k + 1 end;\nprint(\"~ ~ ~\\n\", array(0, 1), array(0, begin 2 end), object begin end);\n".into()));
     // user-defined methods that carry the Feeny names of built-ins
